@@ -365,6 +365,10 @@ func init() {
 			switch ai(args[0][0]) {
 			case 1:
 				return c03History(args)
+			case 2: // a table of any size, given sparsely (c03big.go)
+				return c03BigHistory(args)
+			case 8: // the constants of the loader in this build
+				return []string{"0", oi(int64(ptttype.MAX_USERS)), oi(int64(cache.PRE_ALLOCATED_USERS))}
 			case 9: // the reserved ids the loader read from etc/reserved.id, and the constants the model takes from Gen/
 				out := []string{"0", oi(int64(ptttype.MAX_USERS)), oi(int64(ptttype.IDLEN)), oi(int64(ptttype.EMAILSZ))}
 				ids := [][]byte{}
